@@ -256,6 +256,10 @@ def run_tier(prop, tier):
                  and not res["faults"].get(p)]
         if stuck:
             harness_errors.append("reach probes stuck at zero: %s" % stuck)
+        soft = [p for p in eng.expected_probes(tier, cfg) if not res["probes"].get(p)
+                and not res["faults"].get(p)]
+        for p in soft:
+            print("WARNING reach probe at zero (depends on library behaviour): %s" % p)
 
     if res is not None:
         print("runs=%d (enumerated %d) events=%d distinct_schedules=%d violating_runs=%d "
